@@ -1,5 +1,9 @@
 (* Property C09: the property theorems and nothing else.  Each is closed by the lemma of the same name in
-   Proofs/C09_*.v about the executable model Model/C09_*.v; Print Assumptions lists the axioms. *)
+   Proofs/C09_*.v about the executable model Model/C09_*.v; Print Assumptions lists the axioms.
+   All theorems about the minimize loop are stated for THE CODE THAT EXISTS: the model instance [code_now]
+   (Model/C09_Minimize.v; /repo since commit 16638da, optim.hpp:147 with the disjunct r_n == 0).  The lemmas in Proofs/
+   hold for both values of the model's [fixed] flag and are instantiated here.  The only statement about the code before
+   that commit is the historical C09_zero_residual_spin_refuted. *)
 From Coq Require Import QArith Qabs Bool List ZArith.
 From SV Require Import Model.C09_TrStrategy Model.C09_Minimize.
 From SV Require Proofs.C09_TrStrategy Proofs.C09_Minimize.
@@ -11,92 +15,115 @@ Local Open Scope Q_scope.
    every callback cost, in particular not above the start -- for every strategy that only takes steps with rho > 0,
    every oracle sequence meeting the exact-arithmetic contract (C10), options, start and strategy state *)
 Theorem C09_cost_monotone :
-  forall (S X : Type) (strat : strategy S) (opts : options) (fixed : bool) (orc : nat -> oracle X),
+  forall (S X : Type) (strat : strategy S) (opts : options) (orc : nat -> oracle X),
   takes_only_positive strat ->
   forall x0 c0 s0, 0 <= c0 ->
-  (forall s, reach strat opts fixed orc x0 c0 s0 s -> st s = None -> (iter s < max_iter opts)%nat ->
+  (forall s, reach strat opts code_now orc x0 c0 s0 s -> st s = None -> (iter s < max_iter opts)%nat ->
              exact_oracle (cost s) (orc (iter s))) ->
-  let r := run strat opts fixed orc x0 c0 s0 in
+  let r := run strat opts code_now orc x0 c0 s0 in
   mono (cbs r) /\ (forall p, In p (cbs r) -> cost r <= snd p /\ snd p <= c0) /\ cost r <= c0.
-Proof. exact (@cost_monotone). Qed.
+Proof. exact (fun S X strat opts => @cost_monotone S X strat opts code_now). Qed.
 Print Assumptions C09_cost_monotone.
 
 Theorem C09_cost_monotone_ceres :
-  forall (X : Type) opts fixed (orc : nat -> oracle X) x0 c0 s0, 0 <= c0 ->
-  (forall s, reach ceres opts fixed orc x0 c0 s0 s -> st s = None -> (iter s < max_iter opts)%nat ->
+  forall (X : Type) opts (orc : nat -> oracle X) x0 c0 s0, 0 <= c0 ->
+  (forall s, reach ceres opts code_now orc x0 c0 s0 s -> st s = None -> (iter s < max_iter opts)%nat ->
              exact_oracle (cost s) (orc (iter s))) ->
-  let r := run ceres opts fixed orc x0 c0 s0 in
+  let r := run ceres opts code_now orc x0 c0 s0 in
   mono (cbs r) /\ (forall p, In p (cbs r) -> cost r <= snd p /\ snd p <= c0) /\ cost r <= c0.
-Proof. exact (@cost_monotone_ceres). Qed.
+Proof. exact (fun X opts => @cost_monotone_ceres X opts code_now). Qed.
 Print Assumptions C09_cost_monotone_ceres.
 
 Theorem C09_cost_monotone_disney :
-  forall (X : Type) opts fixed (orc : nat -> oracle X) x0 c0 d0, 0 <= c0 ->
-  (forall s, reach disney opts fixed orc x0 c0 d0 s -> st s = None -> (iter s < max_iter opts)%nat ->
+  forall (X : Type) opts (orc : nat -> oracle X) x0 c0 d0, 0 <= c0 ->
+  (forall s, reach disney opts code_now orc x0 c0 d0 s -> st s = None -> (iter s < max_iter opts)%nat ->
              exact_oracle (cost s) (orc (iter s))) ->
-  let r := run disney opts fixed orc x0 c0 d0 in
+  let r := run disney opts code_now orc x0 c0 d0 in
   mono (cbs r) /\ (forall p, In p (cbs r) -> cost r <= snd p /\ snd p <= c0) /\ cost r <= c0.
-Proof. exact (@cost_monotone_disney). Qed.
+Proof. exact (fun X opts => @cost_monotone_disney X opts code_now). Qed.
 Print Assumptions C09_cost_monotone_disney.
 
 (* floating-point variant: each callback cost is at most (1 + sl) times the previous one *)
 Theorem C09_cost_monotone_fl :
-  forall (S X : Type) (strat : strategy S) (opts : options) (fixed : bool) (orc : nat -> oracle X),
+  forall (S X : Type) (strat : strategy S) (opts : options) (orc : nat -> oracle X),
   takes_only_positive strat ->
   forall sl x0 c0 s0, 0 <= sl -> 0 <= c0 ->
-  (forall s, reach strat opts fixed orc x0 c0 s0 s -> st s = None -> (iter s < max_iter opts)%nat ->
+  (forall s, reach strat opts code_now orc x0 c0 s0 s -> st s = None -> (iter s < max_iter opts)%nat ->
              fl_oracle sl (cost s) (orc (iter s))) ->
-  let r := run strat opts fixed orc x0 c0 s0 in
+  let r := run strat opts code_now orc x0 c0 s0 in
   mono_sl sl (cbs r) /\ 0 <= cost r.
-Proof. exact (@cost_monotone_fl). Qed.
+Proof. exact (fun S X strat opts => @cost_monotone_fl S X strat opts code_now). Qed.
 Print Assumptions C09_cost_monotone_fl.
 
 (* without the strategy contract the statement is false (user-defined strategy) *)
 Theorem C09_cost_monotone_without_contract_refuted :
   exists (sc : script) (oc : oracle Z),
-    exact_oracle 1 oc /\ ~ mono (cbs (run scripted ex_opts false (orc_of_list [oc]) 0%Z 1 sc)).
+    exact_oracle 1 oc /\ ~ mono (cbs (run scripted ex_opts code_now (orc_of_list [oc]) 0%Z 1 sc)).
 Proof. exact cost_monotone_without_contract_refuted. Qed.
 Print Assumptions C09_cost_monotone_without_contract_refuted.
 
 Theorem C09_iter_bound :
-  forall (S X : Type) (strat : strategy S) (opts : options) (fixed : bool) (orc : nat -> oracle X) x0 c0 s0,
-  let r := run strat opts fixed orc x0 c0 s0 in
+  forall (S X : Type) (strat : strategy S) (opts : options) (orc : nat -> oracle X) x0 c0 s0,
+  let r := run strat opts code_now orc x0 c0 s0 in
   (result_iter r <= max_iter opts)%nat /\
   length (evs r) = result_iter r /\
   length (cbs r) = Datatypes.S (count_stepped (evs r)) /\
   (1 <= length (cbs r) <= max_iter opts + 1)%nat /\
   last (cbs r) (x0, c0) = (x0, c0).
-Proof. exact (@iter_bound). Qed.
+Proof. exact (fun S X strat opts => @iter_bound S X strat opts code_now). Qed.
 Print Assumptions C09_iter_bound.
 
 Theorem C09_status_maxiters_iff :
-  forall (S X : Type) (strat : strategy S) (opts : options) (fixed : bool) (orc : nat -> oracle X) x0 c0 s0,
-  let r := run strat opts fixed orc x0 c0 s0 in
+  forall (S X : Type) (strat : strategy S) (opts : options) (orc : nat -> oracle X) x0 c0 s0,
+  let r := run strat opts code_now orc x0 c0 s0 in
   (result_status r = MaxIters <-> Forall (fun e => e_conv e = None) (evs r)) /\
   (result_status r = MaxIters -> result_iter r = max_iter opts) /\
   (forall v, v <> MaxIters -> result_status r = v ->
      exists e rest, evs r = e :: rest /\ e_conv e = Some v /\ e_stepped e = true /\
                     Forall (fun e' => e_conv e' = None) rest /\ (1 <= result_iter r <= max_iter opts)%nat).
-Proof. exact (@status_maxiters_iff). Qed.
+Proof. exact (fun S X strat opts => @status_maxiters_iff S X strat opts code_now). Qed.
 Print Assumptions C09_status_maxiters_iff.
 
 Theorem C09_final_is_last_iterate :
-  forall (S X : Type) (strat : strategy S) (opts : options) (fixed : bool) (orc : nat -> oracle X) x0 c0 s0,
-  let r := run strat opts fixed orc x0 c0 s0 in
+  forall (S X : Type) (strat : strategy S) (opts : options) (orc : nat -> oracle X) x0 c0 s0,
+  let r := run strat opts code_now orc x0 c0 s0 in
   hd_error (cbs r) = Some (cur r, cost r).
-Proof. exact (@final_is_last_iterate). Qed.
+Proof. exact (fun S X strat opts => @final_is_last_iterate S X strat opts code_now). Qed.
 Print Assumptions C09_final_is_last_iterate.
 
 Theorem C09_reject_keeps_x :
-  forall (S X : Type) (strat : strategy S) (opts : options) (fixed : bool) (oc : oracle X) (s : state S X),
+  forall (S X : Type) (strat : strategy S) (opts : options) (oc : oracle X) (s : state S X),
   accept oc (fst (step_and_update strat (sstate s) (o_rho oc))) = false ->
-  cur (step strat opts fixed oc s) = cur s /\ cost (step strat opts fixed oc s) = cost s /\
-  cbs (step strat opts fixed oc s) = cbs s.
-Proof. exact (@reject_keeps_x). Qed.
+  cur (step strat opts code_now oc s) = cur s /\ cost (step strat opts code_now oc s) = cost s /\
+  cbs (step strat opts code_now oc s) = cbs s.
+Proof. exact (fun S X strat opts => @reject_keeps_x S X strat opts code_now). Qed.
 Print Assumptions C09_reject_keeps_x.
 
-(* known finding C09-zero-residual-nan: the code as it is spins on a zero residual when ptol = 0 until Delta is below
-   the radius where lambda = 1/Delta overflows; the patched code stops at once with Ftol *)
+(* zero residual (the region of the former finding C09-zero-residual-nan, fixed in /repo by 16638da): the iteration that
+   sees r_n == 0 takes the (zero) step, hands it to the callback and ends the loop with Ftol -- for every strategy,
+   every tolerance (also ptol, ftol <= 0) and every oracle record *)
+Theorem C09_zero_residual_stops :
+  forall (S X : Type) (strat : strategy S) (opts : options) (orc : nat -> oracle X) (s : state S X),
+  st s = None -> o_rn_zero (orc (iter s)) = true ->
+  st (step strat opts code_now (orc (iter s)) s) = Some Ftol /\
+  cbs (step strat opts code_now (orc (iter s)) s) = (o_xp (orc (iter s)), o_cost_new (orc (iter s))) :: cbs s.
+Proof. exact (@zero_residual_stops). Qed.
+Print Assumptions C09_zero_residual_stops.
+
+(* run level: an executed iteration with r_n == 0 is the last one and the run reports Ftol; hence no iteration (no
+   strategy update, no trust-region solve) ever follows a zero residual and Delta cannot be driven to underflow by it *)
+Theorem C09_zero_residual_ends_run :
+  forall (S X : Type) (strat : strategy S) (opts : options) (orc : nat -> oracle X) x0 c0 s0,
+  let r := run strat opts code_now orc x0 c0 s0 in
+  forall i, (i < result_iter r)%nat -> o_rn_zero (orc i) = true ->
+    result_iter r = Datatypes.S i /\ result_status r = Ftol.
+Proof. exact (@zero_residual_ends_run). Qed.
+Print Assumptions C09_zero_residual_ends_run.
+
+(* HISTORICAL (kept so that the regression is documented on the model side): the code BEFORE 16638da, i.e. the model
+   with [fixed := false], spins on a zero residual when ptol = 0 until Delta is below the radius where
+   lambda = 1/Delta overflows.  This is a statement about the old code only; it is still a theorem of the
+   parametrised model. *)
 Theorem C09_zero_residual_spin_refuted :
   let r := run ceres spin_opts false (fun _ => spin_oracle) 0%Z 0 ceres_init in
   result_status r = MaxIters /\ result_iter r = 60%nat /\ length (cbs r) = 61%nat /\
@@ -104,28 +131,19 @@ Theorem C09_zero_residual_spin_refuted :
 Proof. exact zero_residual_spin_refuted. Qed.
 Print Assumptions C09_zero_residual_spin_refuted.
 
-Theorem C09_zero_residual_stops_fixed :
-  forall (S X : Type) (strat : strategy S) (opts : options) (fixed : bool) (orc : nat -> oracle X),
-  fixed = true ->
-  forall (s : state S X), st s = None -> o_rn_zero (orc (iter s)) = true ->
-  st (step strat opts fixed (orc (iter s)) s) = Some Ftol /\
-  cbs (step strat opts fixed (orc (iter s)) s) = (o_xp (orc (iter s)), o_cost_new (orc (iter s))) :: cbs s.
-Proof. exact (@zero_residual_stops_fixed). Qed.
-Print Assumptions C09_zero_residual_stops_fixed.
-
 (* strategies *)
 Theorem C09_ceres_run_facts :
-  forall (X : Type) opts fixed (orc : nat -> oracle X) x0 c0 s0, ceres_inv s0 ->
-  let r := run ceres opts fixed orc x0 c0 s0 in
+  forall (X : Type) opts (orc : nat -> oracle X) x0 c0 s0, ceres_inv s0 ->
+  let r := run ceres opts code_now orc x0 c0 s0 in
   ceres_inv (sstate r) /\ Forall (fun e => 0 < e_delta e) (evs r).
-Proof. exact (@ceres_run_facts). Qed.
+Proof. exact (fun X opts => @ceres_run_facts X opts code_now). Qed.
 Print Assumptions C09_ceres_run_facts.
 
 Theorem C09_disney_run_facts :
-  forall (X : Type) opts fixed (orc : nat -> oracle X) x0 c0 (d0 : Q), 0 < d0 ->
-  let r := run disney opts fixed orc x0 c0 d0 in
+  forall (X : Type) opts (orc : nat -> oracle X) x0 c0 (d0 : Q), 0 < d0 ->
+  let r := run disney opts code_now orc x0 c0 d0 in
   0 < sstate r /\ Forall (fun e => 0 < e_delta e) (evs r).
-Proof. exact (@disney_run_facts). Qed.
+Proof. exact (fun X opts => @disney_run_facts X opts code_now). Qed.
 Print Assumptions C09_disney_run_facts.
 
 Theorem C09_ceres_reject_shrinks :
